@@ -604,6 +604,10 @@ pub fn gen_graceful_burst(rng: &mut Rng, faults: bool, slow_death: bool) -> E1Sc
         if rng.chance(1, 8) {
             children[0].fail_kill = true;
         }
+        if grace != u64::MAX && rng.chance(1, 6) {
+            // an I/O error from wait() in the middle of the grace period
+            children[0].wait_fail_after = Some(*rng.pick(&[1u64, grace / 2 + 1, grace.saturating_sub(1).max(1)]));
+        }
     }
     // slow death: the kill at the end of the grace period takes a while to take effect
     if slow_death && rng.chance(1, 6) {
@@ -666,7 +670,11 @@ pub fn oracle_c06(scn: &E1Scn, d: &Digest, stats: &mut Stats) -> Vec<Violation> 
             }
         }
         // (3) still alive at expiry => killed and reaped exactly then
-        let faulty = c.faults > 0;
+        // (a failed kill or signal ends the graceful control; a failed wait() does not: the timer stays armed)
+        let faulty = c.faults > c.wait_faults;
+        if c.wait_faults > 0 {
+            stats.hit("probe:wait-error-during-graceful-control");
+        }
         // (dropped un-reaped before the deadline: legitimate only for a job told to go at once - delete_now, checked
         // below - or torn down with the scenario; a job whose handles are dropped still sees its grace period out)
         let dropped_early = c.dropped.map(|dr| !dr.2 && dr.0 <= deadline && dr.3).unwrap_or(false);
@@ -690,11 +698,14 @@ pub fn oracle_c06(scn: &E1Scn, d: &Digest, stats: &mut Stats) -> Vec<Violation> 
         if !faulty && !ended_by_then && !dropped_early && !delete_now_before(scn, d, u32::MAX) {
             let late = match c.exit {
                 None => true,
-                Some((e, _)) => e > deadline.saturating_add(lag),
+                // (a wait() error is reported to the error handler first: an asynchronous handler keeps the job task busy
+                // for its duration, and the expiry is acted upon when it returns)
+                Some((e, _)) => e > deadline.saturating_add(lag).saturating_add(if c.wait_faults > 0 { hook_slack(scn) } else { 0 }),
             };
             // (an end exactly at the deadline is a tie: it may be the kill at expiry or an earlier SIGKILL taking effect)
             let alive_at_expiry = c.exit.map(|e| e.0 > deadline).unwrap_or(true);
-            if !late && alive_at_expiry && !c.kills.iter().any(|k| k.0 == deadline) {
+            let handler_delay = c.wait_faults > 0 && hook_slack(scn) > 0;
+            if !late && alive_at_expiry && !handler_delay && !c.kills.iter().any(|k| k.0 == deadline) {
                 vs.push(Violation::new(
                     "no-kill-at-grace-expiry",
                     st.op.name(),
